@@ -216,6 +216,7 @@ def run(tier):
 
     replay_cases = replay_nontrivial = replay_unspec = replay_amb = 0
     replay_parsed = replay_err = 0
+    cause_drift = 0
     per_cfg = {}
     for cfg, path, r in gens:
         vlib.tlc_must_pass(r, f"model check {cfg}")
@@ -244,6 +245,7 @@ def run(tier):
         replay_amb += s["ambiguous"]
         replay_parsed += s["agree_parsed"]
         replay_err += s["agree_syntax_error"]
+        cause_drift += s.get("syntax_error_cause_drift", 0)
         per_cfg[cfg] = {"states": r.distinct, "generated": r.generated, "cases": s["cases"], "bad": nbad,
                         "nontrivial": s["nontrivial"]}
         if len(samples) < 6:
@@ -269,6 +271,7 @@ def run(tier):
         if hang is not None:
             raise vlib.ToolError(f"parser hung on alias-free text: {hang}")
         js = _summary(out, "judge")
+        cause_drift += js.get("syntax_error_cause_drift", 0)
         nbad = 0
         for r_ in vlib.read_ndjson(bad):
             if r_["rec"].get("st") in ("hang", "panic"):
@@ -316,6 +319,8 @@ def run(tier):
         for p in (rec, res):
             os.remove(p)
 
+    if cause_drift:
+        vlib.log(f"NOTE: {cause_drift} case(s) where both parses are syntax errors but with different causes (drift, not a violation)")
     rc = rep.finish()
     unexercised = [a for a, c in cov_actions.items() if c == 0]
     validated = replay_cases + rnd["validated"] + e2e["validated"]
@@ -335,6 +340,7 @@ def run(tier):
         "replay_cases": replay_cases,
         "replay_parsed_equal": replay_parsed,
         "replay_both_syntax_error": replay_err,
+        "drift_syntax_error_cause_differs": cause_drift,
         "replay_unspecified_skipped": replay_unspec,
         "replay_two_allowed_results": replay_amb,
         "random_records": rnd["records"],
